@@ -164,7 +164,8 @@ func (e *Engine) invoke(fr *Frame, ret ssa.Value, fn *ssa.Function, binds []Valu
 		}
 	}
 	// 2. harness stubs
-	if target, ok := e.Cfg.Stubs[name]; ok {
+	if target, ok := e.Cfg.Stubs[name]; ok && !(fr != nil && fr.fn != nil && fr.fn.Name() == target) {
+		// (a stub may call the function it stands in for: that call is not redirected again)
 		sf := e.lookupHarnessFunc(target)
 		if sf == nil {
 			e.unsupported("stub target %s not found in harness package", target)
